@@ -132,7 +132,7 @@ Inductive ev :=
 | EPut (k v : Z)                 (* watch event PUT   -> handleWatchEvents *)
 | EDelete (k : Z)                (* watch event DELETE-> handleWatchEvents *)
 | EReload (snap : list (Z * Z))  (* Get response      -> handleChanges *)
-          (adds : list (Z * Z)) (rems : list Z)   (* oracle: order of the OnAdd / OnDelete calls *)
+          (calls : list lev)     (* oracle: the OnAdd / OnDelete calls in the order they were made *)
 | EJoin (x : bool) (order : list (Z * Z)).        (* Registry.Monitor of a new container on the
                                                      existing watcher; oracle: replay order *)
 
@@ -167,7 +167,7 @@ Definition emitted (e : ev) : list lev :=
   match e with
   | EPut k v => [LAdd k v]
   | EDelete k => [LDel k]
-  | EReload _ adds rems => ladds adds ++ ldels rems
+  | EReload _ calls => calls
   | EJoin _ _ => []
   end.
 
@@ -175,7 +175,7 @@ Definition step (s : sys) (e : ev) : sys :=
   match e with
   | EPut k v => mkSys (mset k v (rvals s)) (map (fun c => c_run c (emitted e)) (conts s))
   | EDelete k => mkSys (mdel k (rvals s)) (map (fun c => c_run c (emitted e)) (conts s))
-  | EReload snap _ _ => mkSys (snap_map snap) (map (fun c => c_run c (emitted e)) (conts s))
+  | EReload snap _ => mkSys (snap_map snap) (map (fun c => c_run c (emitted e)) (conts s))
   | EJoin x order => mkSys (rvals s) (conts s ++ [c_run (new_container x) (ladds order)])
   end.
 
@@ -186,7 +186,7 @@ Definition truth_step (t : amap Z) (e : ev) : amap Z :=
   match e with
   | EPut k v => mset k v t
   | EDelete k => mdel k t
-  | EReload snap _ _ => snap_map snap
+  | EReload snap _ => snap_map snap
   | EJoin _ _ => t
   end.
 Definition truth (l : list ev) : amap Z := fold_left truth_step l [].
